@@ -29,6 +29,14 @@ def run_scenario(sc, variant, round_tag=""):
                 return real_get(gid)
 
             st.get_graph = slow_get
+            if hasattr(st, "csr"):
+                real_csr = st.csr
+
+                def slow_csr(gid):  # a second suspension point, inside the per-graph computation
+                    time.sleep(jr.choice([0, 0.0003, 0.001, 0.002]))
+                    return real_csr(gid)
+
+                st.csr = slow_csr
             sys.setswitchinterval(1e-6)
         shim = None
         if variant.get("datetime_target_ms") is not None:
